@@ -211,6 +211,8 @@ def run(ctx, col: Collector):
     guarded(col, 'C07-swallow', 'handlers', swallow)
 
     # ---------------------------------------------------------------- C07-vocab
+    glued: Set[tuple] = set()
+
     def vocab_texts(nodes: List[G]) -> Tuple[Set[str], bool, Optional[G]]:
         texts: Set[str] = set()
         all_caseless = True
@@ -223,6 +225,11 @@ def run(ctx, col: Collector):
                 texts.add(t)
                 all_caseless = all_caseless and cl
                 first = first or node
+                if node.kind == 'combine' and not node.a.get('adjacent', True) and (node.module, node.line, t) not in glued:
+                    glued.add((node.module, node.line, t))
+                    col.bad('C07-vocab', f'phrase:{t!r}@{node.module.split(".")[-1]}', f'the keyword phrase {t!r} ({node.file}:{node.line}) is a Combine(..., adjacent=False) of its '
+                            f'words: white space between the words is optional, so the run-together spelling {t.replace(" ", "")!r} - not a DBML keyword - is accepted and '
+                            f'silently read as {t!r}', node=_N(node), file=node.file)
         return texts, all_caseless, first
 
     def vocabularies():
